@@ -165,6 +165,39 @@ CHECKS["C13"] = dict(
          "requirement died and counts the destruction on every path.",
     design_ref="DESIGN.md section 4, C13", note="Several simultaneous requirements on one object: known finding (F12).")
 
+CHECKS["C09"] = dict(
+    technique="generated compile-time parametricity witnesses (pairwise distinct opaque parameter types, all arities "
+              "0..15, four macro families, eight clause kinds) with negative controls; argument data-flow in the "
+              "dispatch function; lambda capture-default table by originating macro",
+    text="For every arity 0..15 and MAKE_MOCK / MAKE_CONST_MOCK / IMPLEMENT_MOCK / IMPLEMENT_CONST_MOCK, with parameters "
+         "passed by value, &, const&, &&, pointer and move-only, decltype(_k) inside WITH, SIDE_EFFECT, RETURN, THROW "
+         "and their LR_ twins is remove_reference_t<Pk>& and _k beyond the arity is illegal_argument; because the "
+         "types are pairwise distinct and opaque every permutation, off-by-one or copy fails to compile, so the "
+         "witness holds for all argument values. The tuple is built in place from the forwarded parameters in order; "
+         "plain clause macros capture [=], LR_ ones [&]. Enumerated space is exhaustive.",
+    design_ref="DESIGN.md section 4, C09", note="Compiler front ends are the oracle.")
+CHECKS["C17"] = dict(
+    technique="who-may-call on the trace sink, structural checks of the dispatch function's agent (construction "
+              "point, data-flow of tracer / location / name, ordering), handler order, save/restore pairing, "
+              "ownership of the agent's record",
+    text="The trace sink is called from exactly one site, the scope-bound agent's destructor, iff the tracer that was "
+         "current when the accepted call started is non-null; the agent is created on the accepted path from "
+         "tracer_obj() and the candidate's location and text, records all parameters before the actions, the return "
+         "value or the exception (what() before unknown), and owns its record (no shared state across nested calls); "
+         "tracers save and restore their predecessor and cannot be copied; only set_tracer writes the current tracer.",
+    design_ref="DESIGN.md section 4, C17", note="Not decided: text layout; non-nested tracer lifetimes (C14 finding).")
+CHECKS["C18"] = dict(
+    technique="edge dominance of the null guard in every print() instantiation, insertion census in structural "
+              "streamers, save/restore pairing and installed constants of stream_sentry, sentry dominance of direct "
+              "insertions, compile-time dispatch-trait witnesses",
+    text="In every instantiation of print() the printer is reached only on the non-null edge of is_null and 'nullptr' "
+         "is printed on the other; tuple, pair and collection streamers insert only separators directly and print "
+         "every element through print(), so the guard holds at every nesting depth; stream_sentry exchanges width / "
+         "flags / fill with 0 / dec|left / ' ' and restores each; every direct insertion of a leaf or of hex-dump "
+         "bytes is dominated by a live sentry; opaque values are dumped as sizeof(T) bytes from their address; "
+         "dispatch traits hold over the listed type family.",
+    design_ref="DESIGN.md section 4, C18", note="Not decided: hex-dump digits and line breaks for every size.")
+
 NOT_APPLICABLE = {}
 
 
